@@ -198,6 +198,21 @@ def run_c11(pid):
         raise ToolError("Gen_Meta failed")
     enc = gen_payloads(g["out"])
     titems = [{"id": e["id"], "kind": "blocks", "class": byid[e["id"]]["class"], "bytes": e["bytes"], "expect_valid": e["valid"] and not byid[e["id"]]["class"].startswith(("seektable-equal", "seektable-desc", "seektable-defined", "picture-type-21", "cuesheet-noncdda-256"))} for e in enc]
+    # accepted byte encodings no public text constructor produces: fields of single tracks altered inside valid cue sheet encodings -
+    # the lead-out track (the last 36 bytes of the block: offset 8, number 1, ISRC 12, flags 1, reserved 13, index count 1) and the
+    # first track given an ISRC / flags; seek points rewritten as placeholders.  Whatever the reader accepts must be re-written equal.
+    nid = max(t_["id"] for t_ in titems) + 1000
+    for e in enc:
+        cls = byid[e["id"]]["class"]
+        b = e["bytes"]
+        if cls.startswith("cuesheet") and e["valid"] and len(b) > 4 + 38 + 4 + 396 + 36:
+            for isrc, flags in ((b"USABC0012345", 0x00), (bytes(12), 0xC0), (bytes(12), 0x80), (b"USABC0012345", 0x40)):
+                bb = list(b)
+                bb[len(bb) - 27:len(bb) - 15] = list(isrc)
+                bb[len(bb) - 15] = flags
+                nid += 1
+                titems.append({"id": nid, "kind": "blocks", "class": "cuesheet-leadout-fields", "bytes": bb, "expect_valid": False})
+    byid.update({t_["id"]: {"class": t_["class"]} for t_ in titems if t_["id"] not in byid})
     tp2 = os.path.join(wd, "trace_conv.ndjson")
     run_drive("total", {"out": tp2, "items": titems}, wd, tag="conv")
     tr = tlc_trace(os.path.join(SPEC, "Trace_Total.tla"), os.path.join(SPEC, "Trace_Total.cfg"), tp2, wd, env={"PROP": "C11"})
